@@ -6,6 +6,7 @@
 -/
 import MotoModel.Model.DiskCli
 import MotoModel.Gen.Cli
+import MotoModel.Proofs.PathSpelling
 namespace Moto.C19
 open Moto
 
@@ -124,5 +125,78 @@ theorem beside_archive (archive : Str) : Tape.targetDirOf archive none = dirname
 /-- listing writes nothing -/
 theorem tape_list_no_effect (verbose : Bool) (tape : Bytes) :
     (Tape.enumerate verbose tape).writes = [] ∧ (Tape.enumerate verbose tape).mkdirs = [] := ⟨rfl, rfl⟩
+
+/-! ### the archive name -/
+
+/-- the split of a list around the last occurrence of `c` is unique -/
+theorem last_split_unique (c : Nat) (p1 p2 q1 q2 : Str) (h : p1 ++ c :: q1 = p2 ++ c :: q2) (h1 : c ∉ q1) (h2 : c ∉ q2) :
+    p1 = p2 ∧ q1 = q2 := by
+  induction p1 generalizing p2 with
+  | nil =>
+    cases p2 with
+    | nil => simp at h; exact ⟨rfl, h⟩
+    | cons y ys =>
+      simp only [List.nil_append, List.cons_append, List.cons.injEq] at h
+      exfalso
+      apply h1
+      rw [h.2]; simp
+  | cons x xs ih =>
+    cases p2 with
+    | nil =>
+      simp only [List.nil_append, List.cons_append, List.cons.injEq] at h
+      exfalso
+      apply h2
+      rw [← h.2]; simp
+    | cons y ys =>
+      simp only [List.cons_append, List.cons.injEq] at h
+      obtain ⟨hp, hq⟩ := ih ys h.2
+      exact ⟨by rw [h.1, hp], hq⟩
+
+open Moto.Disk in
+/-- **C19 (wrong archive extension)**: the disk archivers accept an archive name exactly when what
+    follows its last dot is the two letters of their flavour, in either case — `sd` for moto_sdar,
+    `fd` for moto_fdar; a name without a dot, with another extension, or with anything after the
+    extension is refused with a `ValueError` before any file is opened -/
+theorem archive_name_rule (fl : Flavour) (a : Str) :
+    checkArchiveName fl a = .ok () ↔
+      ∃ stem x y, a = stem ++ [46, x, y] ∧ x ≠ 46 ∧ y ≠ 46
+        ∧ lowerC x = (match fl with | .sd => 115 | .fd => 102) ∧ lowerC y = 100 := by
+  unfold checkArchiveName
+  cases fl
+  all_goals
+    dsimp only
+    rcases rfind_split 46 a with ⟨hn, hno⟩ | ⟨i, hi, pre, post, ha, hpl, hpost⟩
+    · rw [hn]
+      constructor
+      · intro h; cases h
+      · rintro ⟨stem, x, y, rfl, _⟩; exfalso; apply hno; simp
+    · rw [hi]
+      dsimp only
+      have hdrop : a.drop (i + 1) = post := by
+        rw [ha, ← hpl]
+        have : pre ++ 46 :: post = (pre ++ [46]) ++ post := by simp
+        rw [this]
+        exact List.drop_left' (by simp)
+      rw [hdrop]
+      constructor
+      · intro h
+        split at h
+        · rename_i hl
+          have hlen : post.length = 2 := by
+            have := congrArg List.length hl
+            simpa [lower, Tape.str] using this
+          match post, hlen with
+          | [x, y], _ =>
+            simp [lower, Tape.str] at hl
+            refine ⟨pre, x, y, by rw [ha], ?_, ?_, hl.1, hl.2⟩
+            · intro e; apply hpost; simp [e]
+            · intro e; apply hpost; simp [e]
+        · cases h
+      · rintro ⟨stem, x, y, hst, hx, hy, hlx, hly⟩
+        have hsplit : pre ++ 46 :: post = stem ++ 46 :: [x, y] := by rw [← ha, hst]
+        obtain ⟨_, hq⟩ := last_split_unique 46 pre stem post [x, y] hsplit hpost
+          (by simp only [List.mem_cons, List.mem_nil_iff, or_false, not_or]; exact ⟨fun e => hx e.symm, fun e => hy e.symm⟩)
+        rw [hq]
+        rw [if_pos (by simp [lower, Tape.str, hlx, hly])]
 
 end Moto.C19
